@@ -261,13 +261,18 @@ pub fn vframe(codec: u8, f: &VF, idx: u64) -> (Vec<u8>, Vec<u8>, bool) {
                 let sc4 = sh & 1 != 0;
                 let mut push = |typ: u8, len: u16, fill: u8| nals.push(NalGene { typ, len, fill, sc4, aux: 2 });
                 if f.kind == VKind::KeyCfg {
-                    if hevc {
-                        push(h265t::VPS, 5, 1);
-                        push(h265t::SPS, 16, 2);
-                        push(h265t::PPS, 3, 0);
-                    } else {
-                        push(h264t::SPS, 8, 2);
-                        push(h264t::PPS, 3, 0);
+                    // the configuration in canonical order, reversed (PPS first), with an AUD / SEI in front, or with a
+                    // byte-identical second PPS: all of them "carry the codec configuration"
+                    let mut group: Vec<(u8, u16, u8)> = if hevc { vec![(h265t::VPS, 5, 1), (h265t::SPS, 16, 2), (h265t::PPS, 3, 0)] } else { vec![(h264t::SPS, 8, 2), (h264t::PPS, 3, 0)] };
+                    match (sh >> 2) % 6 {
+                        1 => group.reverse(),
+                        2 => group.insert(0, (if hevc { h265t::AUD } else { h264t::AUD }, 1, 0)),
+                        3 => group.insert(0, (if hevc { h265t::SEI } else { h264t::SEI }, 6, 2)),
+                        4 => group.push((if hevc { h265t::PPS } else { h264t::PPS }, 1, 255)),
+                        _ => {}
+                    }
+                    for (t, l, fl) in group {
+                        push(t, l, fl);
                     }
                 }
                 let is_key = matches!(f.kind, VKind::KeyCfg | VKind::KeyNoCfg);
